@@ -190,7 +190,7 @@ PROPS["C19"] = {
              "StreamWrappedConnection and BufferedInputConnection (including re-wrapping an already-safe wrapper) over counting fake resources with a drawn fault (close fails once / always, "
              "read/write fail or are short, already closed), then a sequential history of up to 14 calls {Close, Closed, Read, Write, String, TryClose, LogClose} addressed to any wrapper of the tree; "
              "non-trivial = at least one call was made; distinct = composition x call sequence"),
-    "probes": ["closes_checked", "status_checked", "owner_closes_of_borrowed_connection"],
+    "probes": ["closes_checked", "status_checked", "owner_closes_of_borrowed_connection", "writes_left_in_flight"],
     "technique": "deterministic simulation (degenerate: callers as nodes, the wrapped resource as the faulty disk): generated wrapper trees x call histories x failing resource, close-ledger oracle",
     "level_text": ("Seeded exploration with a close ledger: every fake resource is closed at most once at all times and exactly once after a Close on any wrapper above it; a repeated Close returns nil; "
                    "a first Close returns nil unless a resource below fails; Closed() is true on a wrapper that was closed and false while nothing in its chain was; a connection merely borrowed by "
